@@ -125,3 +125,116 @@ Theorem C06_gen_conc_v1_sim_waitfb_fb :
 Proof. exact @sim_waitfb_fb. Qed.
 Print Assumptions C06_gen_conc_v1_sim_waitfb_fb.
 
+Theorem C16_gen_conc_v1_sim_top_stop :
+  forall (g : divider_fn) (buf : N -> bool) (s : st) (cf : cfgT) (i : nat),
+         RC g buf s cf ->
+         pcs s = Top ->
+         i = 0%nat \/ i = 1%nat ->
+         exists cb cf' : config cstate payload chan_id fname,
+           reaches (table (cap_of buf)) cf cb /\
+           step1 (table (cap_of buf)) cb = Block (RqSelect topAlts true) /\
+           reaches (table (cap_of buf)) (resume cb (AnsSel i None)) cf' /\
+           RC g buf (with_pc s (Drain None)) cf'.
+Proof. exact @sim_top_stop. Qed.
+Print Assumptions C16_gen_conc_v1_sim_top_stop.
+
+Theorem C16_gen_conc_v1_sim_drain_stop :
+  forall (g : divider_fn) (buf : N -> bool) (s : st) (cf : cfgT) (e : option perr) (i : nat),
+         RC g buf s cf ->
+         pcs s = Drain e ->
+         NoDup (keys (actual s)) ->
+         sum (actual s) <> 0 ->
+         i = 0%nat \/ i = 1%nat ->
+         exists cb cf' : config cstate payload chan_id fname,
+           reaches (table (cap_of buf)) cf cb /\
+           step1 (table (cap_of buf)) cb = Block (RqSelect fbAlts false) /\
+           reaches (table (cap_of buf)) (resume cb (AnsSel i None)) cf' /\
+           RCat g mainK (with_pc s (Done e)) cf'.
+Proof. exact @sim_drain_stop. Qed.
+Print Assumptions C16_gen_conc_v1_sim_drain_stop.
+
+Theorem C17_gen_conc_v1_sim_top_add :
+  forall (dv : nat -> Divider) (g : divider_fn),
+         div_ok g dv ->
+         forall (buf : N -> bool) (s : st) (cf : cfgT) (ia : inputAdd) (ch : nat) (rest : list cmd),
+         RC g buf s cf ->
+         pcs s = Top ->
+         (forall q : N, In q (prios s) <-> chan_of s q <> None) ->
+         desc (prios s) ->
+         exists cb cf' : config cstate payload chan_id fname,
+           reaches (table (cap_of buf)) cf cb /\
+           step1 (table (cap_of buf)) cb = Block (RqSelect topAlts true) /\
+           reaches (table (cap_of buf)) (resume cb (AnsSel 2 (Some (PinputAdd ia)))) cf' /\
+           RC g buf (do_cmd dv s (CAdd ch (inputAdd_priority ia)) rest) cf'.
+Proof. exact @sim_top_add. Qed.
+Print Assumptions C17_gen_conc_v1_sim_top_add.
+
+Theorem C17_gen_conc_v1_sim_top_rmv :
+  forall (dv : nat -> Divider) (g : divider_fn),
+         div_ok g dv ->
+         forall (buf : N -> bool) (s : st) (cf : cfgT) (p : N) (rest : list cmd),
+         RC g buf s cf ->
+         pcs s = Top ->
+         (Z.of_nat (length (prios s)) < i_half)%Z ->
+         exists cb cf' : config cstate payload chan_id fname,
+           reaches (table (cap_of buf)) cf cb /\
+           step1 (table (cap_of buf)) cb = Block (RqSelect topAlts true) /\
+           reaches (table (cap_of buf)) (resume cb (AnsSel 3 (Some (PN p)))) cf' /\
+           RC g buf (do_cmd dv s (CRmv p) rest) cf'.
+Proof. exact @sim_top_rmv. Qed.
+Print Assumptions C17_gen_conc_v1_sim_top_rmv.
+
+Theorem C07_gen_conc_v1_sim_endbase_graceful :
+  forall (g : divider_fn) (buf : N -> bool) (s : st) (cf : cfgT),
+         RC g buf s cf ->
+         pcs s = EndBase 0 ->
+         (forall p : N, In p (prios s) <-> chan_of s p <> None) ->
+         exists cb cf' : config cstate payload chan_id fname,
+           reaches (table (cap_of buf)) cf cb /\
+           step1 (table (cap_of buf)) cb = Block (RqSelect [(CGracefulIsBreaked, None)] true) /\
+           reaches (table (cap_of buf)) (resume cb (AnsSel 0 None)) cf' /\
+           RC g buf (with_pc s (if forallb (drained s) (prios s) then Drain None else Idle)) cf'.
+Proof. exact @sim_endbase_graceful. Qed.
+Print Assumptions C07_gen_conc_v1_sim_endbase_graceful.
+
+Theorem C07_gen_conc_v1_sim_drain_end :
+  forall (g : divider_fn) (buf : N -> bool) (s : st) (cf : cfgT) (e : option perr),
+         RC g buf s cf ->
+         pcs s = Drain e ->
+         NoDup (keys (actual s)) ->
+         sum (actual s) = 0 ->
+         exists cf' : config cstate payload chan_id fname,
+           reaches (table (cap_of buf)) cf cf' /\ RCat g mainK (with_pc s (Done e)) cf'.
+Proof. exact @sim_drain_end. Qed.
+Print Assumptions C07_gen_conc_v1_sim_drain_end.
+
+Theorem C07_gen_conc_v1_sim_read_closed :
+  forall (g : divider_fn) (buf : N -> bool) (s : st) (cf : cfgT) (ph : phase) 
+           (p : N) (r : list N) (proc : N) (intr : bool),
+         RC g buf s cf ->
+         pcs s = Read ph p r proc intr ->
+         get (tactic s) p <> 0 ->
+         chan_of s p <> None ->
+         exists cb cf' : config cstate payload chan_id fname,
+           reaches (table (cap_of buf)) cf cb /\
+           step1 (table (cap_of buf)) cb = Block (RqSelect (readAlts buf p) (buf p)) /\
+           reaches (table (cap_of buf)) (resume cb (AnsSel 2 None)) cf' /\
+           RC g buf (mark_drained s p (Prio ph r proc)) cf'.
+Proof. exact @sim_read_closed. Qed.
+Print Assumptions C07_gen_conc_v1_sim_read_closed.
+
+Theorem C06_gen_conc_v1_sim_top_fb :
+  forall (g : divider_fn) (buf : N -> bool) (s : st) (cf : cfgT) (p : N) (q : list N),
+         RC g buf s cf ->
+         pcs s = Top ->
+         fbq s = p :: q ->
+         1 <= get (actual s) p ->
+         get (actual s) p < u_modulus ->
+         exists cb cf' : config cstate payload chan_id fname,
+           reaches (table (cap_of buf)) cf cb /\
+           step1 (table (cap_of buf)) cb = Block (RqSelect topAlts true) /\
+           reaches (table (cap_of buf)) (resume cb (AnsSel 4 (Some (PN p)))) cf' /\
+           RC g buf (pop_fb s p q Calc) cf'.
+Proof. exact @sim_top_fb. Qed.
+Print Assumptions C06_gen_conc_v1_sim_top_fb.
+
